@@ -270,3 +270,127 @@ class TangentialGuard(Unit):
 
 
 UNITS.append(TangentialGuard())
+
+
+# ---- the same guard for the two other truncated-CG solvers (matrices are opaque: only products with vectors are used) ------------
+class MV:
+    """Opaque matrix: M @ v is a fresh vector determined by the contents of M and v; slices/transposes are opaque matrices."""
+    _vcx_symbolic = True
+    _vcx_asarray = True
+    __array_ufunc__ = None
+    _n = 0
+
+    def __init__(self, rows, cols, name="M"):
+        MV._n += 1
+        self.rows, self.cols, self.name = rows, cols, name
+        self.cid = ("M", MV._n)
+        self.shape = (SI(rows), SI(cols))
+        self._cache = {}
+
+    @property
+    def T(self):
+        k = ("T",)
+        if k not in self._cache:
+            self._cache[k] = MV(self.cols, self.rows, self.name + "T")
+        return self._cache[k]
+
+    def __getitem__(self, key):
+        k = ("idx", repr(key) if not isinstance(key, tuple) else tuple(getattr(e, "cid", getattr(getattr(e, "t", None), "get_id", lambda: repr(e))()) if not isinstance(e, slice) else
+                                                                     (getattr(e.start, "t", e.start).__repr__(), getattr(e.stop, "t", e.stop).__repr__()) for e in key))
+        if k not in self._cache:
+            c = cur()
+            r = z3.Int(c.fresh_name("rows"))
+            q = z3.Int(c.fresh_name("cols"))
+            c.assume(z3.And(r >= 0, q >= 0, r <= self.rows, q <= self.cols))
+            self._cache[k] = MV(r, q, self.name + "[..]")
+        return self._cache[k]
+
+    def __neg__(self):
+        return self[("neg",)]
+
+    def __matmul__(self, v):
+        if isinstance(v, MV):
+            return self[("mm", v.cid)]
+        k = ("mv", getattr(v, "cid", id(v)))
+        if k not in self._cache:
+            self._cache[k] = vecs.fresh_vec(self.name + "@v", self.rows, finite=True)
+        return self._cache[k]
+
+    def _vcx_fresh_like(self, nm):
+        return MV(self.rows, self.cols, nm)
+
+
+def optim_shadow2():
+    if "optim_cut2" not in _SH:
+        spec = {"tcg.frame": FrameSpec()}
+        cuts = {("constrained_tangential_byrd_omojokun", 0): ("tcg.frame", "frame"), ("constrained_tangential_byrd_omojokun", 1): ("tcg.frame", "frame"),
+                ("normal_byrd_omojokun", 0): ("tcg.frame", "frame"), ("normal_byrd_omojokun", 1): ("tcg.frame", "frame")}
+        _SH["optim_cut2"] = shadow("cobyqa.subsolvers.optim", specs=spec, cuts=cuts,
+                                   expect_loops={"constrained_tangential_byrd_omojokun": 2, "normal_byrd_omojokun": 3})
+    return _SH["optim_cut2"]
+
+
+class ConstrainedTangentialGuard(Unit):
+    name = "geometry.constrained_tangential_final_guard"
+    props = ("C16",)
+    fmodel = "ORDER"
+    functions = [("cobyqa.subsolvers.optim", "constrained_tangential_byrd_omojokun")]
+    assumptions = TangentialGuard.assumptions + ["qr_tangential_byrd_omojokun is a contract stub (any orthogonal factor, any n_act in 0..n)"]
+
+    def run(self, c):
+        m = optim_shadow2()
+        n = z3.Int(c.fresh_name("n"))
+        mub, meq = z3.Int(c.fresh_name("m_ub")), z3.Int(c.fresh_name("m_eq"))
+        c.assume(z3.And(n >= 1, mub >= 0, meq >= 0))
+        grad = vecs.fresh_vec("grad", n, finite=True)
+        xl = vecs.fresh_vec("xl", n, nonan=True)
+        xu = vecs.fresh_vec("xu", n, nonan=True)
+        bub = vecs.fresh_vec("bub", mub, finite=True)
+        aub, aeq = MV(mub, n, "aub"), MV(meq, n, "aeq")
+        delta = SF.fresh("delta", finite=True)
+        c.assume(delta.r > 0)
+        hp_cache = {}
+
+        def hess_prod(v):
+            if v.cid not in hp_cache:
+                hp_cache[v.cid] = (v, vecs.fresh_vec("Hv", n, finite=True))
+            return hp_cache[v.cid][1]
+
+        def qr_stub(aub_, aeq_, fxl, fxu, fub):
+            na = z3.Int(c.fresh_name("n_act"))
+            c.assume(z3.And(na >= 0, na <= n))
+            return SI(na), MV(n, n, "q")
+        copies = []
+        npx = m.__dict__["np"]
+        real_copy = type(npx).copy
+
+        class NPc(type(npx)):
+            def copy(self, x):
+                r = real_copy(self, x)
+                copies.append((x, getattr(x, "cid", None), r))
+                return r
+        m.__dict__["np"] = NPc()
+        m.__dict__["_alpha_tr"] = lambda step, sd, delta: SF.fresh("alpha_tr", finite=True)
+        m.__dict__["qr_tangential_byrd_omojokun"] = qr_stub
+        try:
+            improve = bool(c.choose("improve_tcg", 2, ["on", "off"]) == 0)
+            kind, res = call_expecting(c, "C08.constrained_tangential",
+                                       lambda: m.constrained_tangential_byrd_omojokun(grad, hess_prod, xl, xu, aub, bub, aeq, delta, False, improve_tcg=improve), ())
+        finally:
+            m.__dict__["np"] = npx
+        q = lambda s: grad @ s + (0.5 * s) @ hess_prod(s)
+        c.oblige("C16.constrained_tangential.caller_data_not_modified", z3.BoolVal(grad.version == 0 and bub.version == 0 and xl.version == 0 and xu.version == 0),
+                 props=["C16", "C11"])
+        step_copies = [r for (src, cid0, r) in copies if cid0 not in (grad.cid,) and getattr(src, "n", None) is not None and src.n.eq(n)]
+        if not step_copies:
+            c.oblige("C16.constrained_tangential.no_improvement_phase_returns_tcg_step", z3.BoolVal(True), props=["C16"])
+            return
+        base = step_copies[-1]
+        if res is base:
+            c.oblige("C16.constrained_tangential.guard_restores_base_step", z3.BoolVal(True), props=["C16"])
+            return
+        c.oblige("C16.constrained_tangential.improved_step_not_worse_than_tcg_step", z3.Not(tobool(q(res) > q(base))), props=["C16"],
+                 note="the step returned after the boundary-improvement phase has a larger model value than the truncated-CG step it started from")
+
+
+UNITS.append(ConstrainedTangentialGuard())
